@@ -253,7 +253,7 @@ func (e *Engine) shift(op token.Token, w int, signed bool, a, b *Term, ty types.
 			panic(unsupported{"shift by symbolic amount in int mode"})
 		}
 		if b.c.Sign() < 0 {
-			panic(targetPanic{e.mkStr("negative shift amount")})
+			panic(targetPanic{v: e.mkStr("negative shift amount")})
 		}
 		k := b.c.Uint64()
 		if op == token.SHL {
